@@ -3,6 +3,7 @@ package props
 import (
 	"encoding/binary"
 	"fmt"
+	"sort"
 	"time"
 
 	sdk "github.com/cosmos/cosmos-sdk/types"
@@ -41,7 +42,13 @@ func (e *sgExt) Clone() ksim.Ext {
 
 func (e *sgExt) KeyBytes() []byte {
 	out := []byte{byte(e.Moves), byte(e.Commits[0]), byte(e.Commits[1])}
-	for _, k := range []string{"channel-0", "channel-1", "07-tendermint-0"} {
+	var ids []string
+	for k := range e.Sent {
+		ids = append(ids, k)
+	}
+	sort.Strings(ids)
+	for _, k := range ids {
+		out = append(out, k...)
 		out = binary.BigEndian.AppendUint64(out, e.Sent[k])
 	}
 	return out
@@ -54,6 +61,7 @@ type SG struct {
 	MaxCommits int
 	V1, V2     bool
 	Movers     []string // subset of close, freeze, expire
+	WholeSecs  bool     // chain A's block times are whole seconds (timeout == block time becomes reachable)
 	pl         PL       // used for set-up only
 }
 
@@ -63,8 +71,15 @@ func (s *SG) Init(wk *ksim.Worker) *ksim.World {
 	w := s.pl.Init(wk)
 	w.Ext = &sgExt{Sent: map[string]uint64{}}
 	// give chain A's clock a sub-second part so that second / nanosecond comparisons differ
-	w.Commit(0, 5300*time.Millisecond)
+	w.Commit(0, s.stepA())
 	return w
+}
+
+func (s *SG) stepA() time.Duration {
+	if s.WholeSecs {
+		return 5 * time.Second
+	}
+	return 5300 * time.Millisecond
 }
 
 func (s *SG) e(w *ksim.World) *sgExt { return w.Ext.(*sgExt) }
@@ -185,7 +200,7 @@ func (s *SG) Apply(w *ksim.World, op ksim.Op) ksim.Result {
 		ch := op.A[0]
 		dt := ksim.BlockStep
 		if ch == 0 {
-			dt = 5300 * time.Millisecond
+			dt = s.stepA()
 		}
 		w.Commit(ch, dt)
 		e.Commits[ch]++
@@ -338,7 +353,8 @@ func runC08(c *core.C) {
 	parts := []ksim.Part{
 		{Name: "v1+v2-shared-counter", Sc: &SG{MaxSend: 3, MaxCommits: 1, V1: true, V2: true, Movers: nil}, Cfg: ksim.Config{MaxDepth: 4 + d}, Share: 0.3},
 		{Name: "v1-guards", Sc: &SG{MaxSend: 2, MaxCommits: 2, V1: true, Movers: all}, Cfg: ksim.Config{MaxDepth: 6 + d}, Share: 0.4},
-		{Name: "v2-guards", Sc: &SG{MaxSend: 2, MaxCommits: 2, V2: true, Movers: all}, Cfg: ksim.Config{MaxDepth: 6 + d}},
+		{Name: "v2-guards", Sc: &SG{MaxSend: 2, MaxCommits: 2, V2: true, Movers: all}, Cfg: ksim.Config{MaxDepth: 6 + d}, Share: 0.7},
+		{Name: "v2-guards/whole-second-block-times", Sc: &SG{MaxSend: 2, MaxCommits: 2, V2: true, WholeSecs: true}, Cfg: ksim.Config{MaxDepth: 4 + d}},
 	}
 	ksim.RunParts(c, parts, [][]ksim.Op{
 		{{K: "sendv1", A: []int{2, 0}}, {K: "sendv2", A: []int{2, 6}}, {K: "sendv1", A: []int{0, 3}}},
